@@ -292,6 +292,31 @@ func errCheckedCall(call *ssa.Call) (bool, string) {
 					}
 				}
 			}
+			// flows into a phi: on the edge that carries this value the error is nil (default-value
+			// idiom), or the phi is the loop-carried copy whose uses are guarded by the parallel
+			// phi of the errors
+			if phi, ok := u.(*ssa.Phi); ok && !guarded {
+				guarded = phiUseGuarded(phi, v, errEx)
+			}
+			// stored into a local variable cell: every load of the cell must be guarded
+			if st, ok := u.(*ssa.Store); ok && !guarded {
+				if al, ok := st.Addr.(*ssa.Alloc); ok {
+					guarded = allocUsesGuarded(al, st, errEx)
+				}
+			}
+			// stored, and the very block ends by testing this error with the failing side only failing
+			if st, ok := u.(*ssa.Store); ok && !guarded {
+				b := st.Block()
+				if iff, ok := b.Instrs[len(b.Instrs)-1].(*ssa.If); ok {
+					for idx := 0; idx < 2; idx++ {
+						for _, at := range atomsOf(iff.Cond, idx == 0) {
+							if at.Kind == "nil" && !at.Pos && at.X == ssa.Value(errEx) && !succeedsFrom(b.Succs[idx]) {
+								guarded = true
+							}
+						}
+					}
+				}
+			}
 			// stored into a field of an object that is only returned where the error is nil
 			if st, ok := u.(*ssa.Store); ok && !guarded {
 				if fa, ok := st.Addr.(*ssa.FieldAddr); ok {
@@ -310,6 +335,12 @@ func errCheckedCall(call *ssa.Call) (bool, string) {
 									if at.Kind == "nil" && at.Pos && at.X == ssa.Value(errEx) {
 										g = true
 									}
+									if at.Kind == "nil" && !at.Pos && at.X == ssa.Value(errEx) {
+										g = true // returned together with the (non-nil) error: the caller must not use it
+									}
+								}
+								if nres := len(ret.Results); nres > 0 && !isNilConst(retOperand(ret, nres-1)) {
+									g = true
 								}
 								if !g {
 									okAll = false
@@ -767,4 +798,130 @@ func ruleParserLifetime(c *Ctx) {
 			c.ok(rid, key, c.P.instrPos(cl.Next), "stateful parser constructed once, outside the loop")
 		}
 	}
+}
+
+// phiUseGuarded: value v (result of a call whose error is errEx) flows into phi.
+func phiUseGuarded(phi *ssa.Phi, v *ssa.Extract, errEx *ssa.Extract) bool {
+	// (1) every edge carrying v comes from a place where errEx is nil
+	okEdges := true
+	for i, e := range phi.Edges {
+		if e != ssa.Value(v) {
+			continue
+		}
+		pred := phi.Block().Preds[i]
+		g := false
+		for _, at := range edgeFacts(pred, succIndex(pred, phi.Block())) {
+			if at.Kind == "nil" && at.Pos && at.X == ssa.Value(errEx) {
+				g = true
+			}
+		}
+		if !g {
+			okEdges = false
+		}
+	}
+	if okEdges {
+		return true
+	}
+	// (2) parallel error phi in the same block; all non-phi uses of the value phi are guarded by it
+	var errPhi *ssa.Phi
+	for _, ins := range phi.Block().Instrs {
+		q, ok := ins.(*ssa.Phi)
+		if !ok {
+			break
+		}
+		par := true
+		hit := false
+		for i, e := range phi.Edges {
+			if e == ssa.Value(v) {
+				hit = true
+				if i >= len(q.Edges) || q.Edges[i] != ssa.Value(errEx) {
+					par = false
+				}
+			}
+		}
+		if par && hit && isErrorType(q.Type()) {
+			errPhi = q
+		}
+	}
+	if errPhi == nil || phi.Referrers() == nil {
+		return false
+	}
+	for _, u := range *phi.Referrers() {
+		switch u.(type) {
+		case *ssa.DebugRef:
+			continue
+		}
+		if p2, ok := u.(*ssa.Phi); ok {
+			_ = p2
+			continue // merged further; the merged value's uses are checked where it is used with its own error
+		}
+		g := false
+		for _, at := range factsAt(u.Block()) {
+			if at.Kind == "nil" && at.Pos && (at.X == ssa.Value(errPhi) || at.X == ssa.Value(errEx)) {
+				g = true
+			}
+		}
+		if !g {
+			return false
+		}
+	}
+	return true
+}
+
+// allocUsesGuarded: the value was stored into a local cell before its error was tested; every
+// later load of the cell (or of its fields) happens where the error is nil, or the cell is
+// overwritten / only returned together with the error.
+func allocUsesGuarded(al *ssa.Alloc, st *ssa.Store, errEx *ssa.Extract) bool {
+	if al.Referrers() == nil {
+		return true
+	}
+	after := reachableBlocks(st.Block(), nil)
+	for _, r := range *al.Referrers() {
+		var users []ssa.Instruction
+		switch x := r.(type) {
+		case *ssa.UnOp:
+			users = append(users, x)
+		case *ssa.FieldAddr:
+			if x.Referrers() != nil {
+				for _, rr := range *x.Referrers() {
+					if ld, ok := rr.(*ssa.UnOp); ok {
+						users = append(users, ld)
+					}
+				}
+			}
+		case *ssa.MakeClosure:
+			return false
+		}
+		for _, u := range users {
+			if !after[u.Block()] {
+				continue
+			}
+			if u.Block() == st.Block() {
+				// loads before the store in the same block are unaffected
+				before := false
+				for _, ins := range u.Block().Instrs {
+					if ins == u {
+						before = true
+						break
+					}
+					if ins == ssa.Instruction(st) {
+						break
+					}
+				}
+				if before {
+					continue
+				}
+			}
+			g := false
+			for _, at := range factsAt(u.Block()) {
+				if at.Kind == "nil" && at.X == ssa.Value(errEx) {
+					g = true // nil: safe to use; non-nil: error path (value returned with its error)
+				}
+			}
+			if !g {
+				return false
+			}
+		}
+	}
+	return true
 }
